@@ -1,6 +1,7 @@
 package props
 
 import (
+	"fmt"
 	"strings"
 	"testing"
 
@@ -71,7 +72,7 @@ func wildcardBoundary(m NetModel, q Q) bool {
 }
 
 func (q Q) key() string {
-	return strings.Join([]string{q.URL, q.Src, q.Typ, q.Hostname, q.DNSType, q.CName, q.CIP, strings.Join(q.Tags, ",")}, "|")
+	return strings.Join([]string{q.URL, q.Src, q.Typ, q.Hostname, q.DNSType, q.CName, q.CIP, strings.Join(q.Tags, ","), fmt.Sprint(q.CosmeticOpt)}, "|")
 }
 
 func genC04(t *rapid.T) c04Case {
